@@ -150,7 +150,8 @@ func (p *c15) Check(sc *runner.Scenario, st *runner.Stats, pin string) *runner.V
 	}
 	nontrivial := kindsOf(*sc.WL) >= 2 && len(w.content.Messages) >= 1
 	// (b) unreadable byte at every position
-	for pos := int64(0); pos < int64(len(w.image)); pos++ {
+	// pos == len(image): an I/O error in place of the end of the file
+	for pos := int64(0); pos <= int64(len(w.image)); pos++ {
 		region := regionOf(w.file, pos, sc.Cfg.SkipMagic)
 		// (n>0, err) one-shot is not injected: io.ReadFull itself drops an error that
 		// arrives together with enough bytes, so the library could never see it
